@@ -19,19 +19,37 @@ INVARIANTS = ['CurrentIsRunning', 'Restored', 'Balanced', 'DefaultIntact', 'Well
 
 # ---- scenario vocabulary ------------------------------------------------------------------------------
 def aw(f):
-    return {'op': 'aw', 'arg': f}
+    return {'op': 'aw', 'arg': f, 'x': 0}
 
 
 def launch(c):
-    return {'op': 'launch', 'arg': c}
+    return {'op': 'launch', 'arg': c, 'x': 0}
 
 
-def soon(raising=False):
-    return {'op': 'soon', 'arg': 1 if raising else 0}
+def soon(raising=False, awaits=0):
+    """self.call_soon(cb); awaits=f: cb is a coroutine that samples, awaits future f and samples again"""
+    return {'op': 'soon', 'arg': 1 if raising else 0, 'x': awaits}
 
 
 def nest(q):
-    return {'op': 'nest', 'arg': q}
+    return {'op': 'nest', 'arg': q, 'x': 0}
+
+
+def osoon(target, awaits=0):
+    """target.call_soon(cb) issued from this (other) process's step"""
+    return {'op': 'osoon', 'arg': target, 'x': awaits}
+
+
+def ofail(target):
+    return {'op': 'ofail', 'arg': target, 'x': 0}
+
+
+def okill(target):
+    return {'op': 'okill', 'arg': target, 'x': 0}
+
+
+def opause(target):
+    return {'op': 'opause', 'arg': target, 'x': 0}
 
 
 def step(ops=(), end='stop'):
@@ -43,7 +61,8 @@ def proc(steps, role='top', ctl=()):
 
 
 def scen(name, procs, mode='any', early=True, soon_env=()):
-    nfut = max([o['arg'] for p in procs for s in p['steps'] for o in s['ops'] if o['op'] == 'aw'] or [0])
+    nfut = max([o['arg'] for p in procs for s in p['steps'] for o in s['ops'] if o['op'] == 'aw'] +
+               [o['x'] for p in procs for s in p['steps'] for o in s['ops']] + [0])
     return {'name': name, 'mode': mode, 'early': bool(early), 'procs': list(procs), 'nfut': nfut, 'soon': set(soon_env)}
 
 
@@ -65,7 +84,21 @@ def family(tier):
                                  proc([step([aw(1)])], role='sub')], mode='idle', early=False, soon_env=[1])
     idle_two = scen('idle_two', [proc([step([aw(1), soon()])], ctl=['kill']), proc([step([aw(2)], 'wait'), step([])])],
                     mode='idle', early=False)
-    quick = [two_async, cont_wait, control, wait_ctl, child_soon, soon_raise, nest2, nest_ctl, idle_two]
+    # an inner (re-entrantly executed / launched) process acts on the OUTER one from its step: fail / kill / pause, and
+    # outer.call_soon(cb) with a callback that samples on entry and after an await
+    nest_fail = scen('nest_fail', [proc([step([nest(2), aw(1)])]), proc([step([aw(2), ofail(1), aw(3)])], role='sub')],
+                     mode='idle', early=False)
+    nest_osoon = scen('nest_osoon', [proc([step([aw(1), nest(2)], 'cont'), step([aw(2)])]),
+                                     proc([step([osoon(1, awaits=3), aw(4), okill(1)])], role='sub')], mode='idle', early=False)
+    nest_opause = scen('nest_opause', [proc([step([nest(2)], 'cont'), step([])]),
+                                       proc([step([opause(1), osoon(1), aw(1)])], role='sub')], mode='idle', early=False)
+    child_acts = scen('child_acts', [proc([step([launch(2), aw(1), soon(awaits=2)])]),
+                                     proc([step([osoon(1, awaits=3), aw(4), osoon(1)])], role='sub')], early=False)
+    child_fail = scen('child_fail', [proc([step([launch(2), aw(1)])]), proc([step([ofail(1), aw(2)])], role='sub'),
+                                     proc([step([launch(4), aw(3)], 'cont'), step([])]),
+                                     proc([step([okill(3), aw(4)])], role='sub')], early=False)
+    quick = [two_async, cont_wait, control, wait_ctl, child_soon, soon_raise, nest2, nest_ctl, idle_two,
+             nest_fail, nest_osoon, nest_opause, child_acts, child_fail]
     if tier == 'quick':
         return quick, []
     three = scen('three_async', [proc([step([aw(1), aw(2)])]), proc([step([aw(3), aw(4)])]), proc([step([aw(5), aw(6)])])],
@@ -96,7 +129,15 @@ def family(tier):
                                    proc([step([aw(5)], 'wait'), step([])])], mode='idle', early=False, soon_env=[3])
     nest_early = scen('nest_early', [proc([step([aw(1), nest(3)])]), proc([step([nest(4), aw(2)])]),
                                      proc([step([aw(3)])], role='sub'), proc([step([aw(4)])], role='sub')], mode='idle')
-    return quick + [three, three_child, three_ctl, control3_idle, nest3, nest_deep, nest_early], [control3]
+    nest3_acts = scen('nest3_acts', [proc([step([nest(2), aw(1)])]),
+                                     proc([step([aw(2), nest(3), aw(3)])], role='sub'),
+                                     proc([step([osoon(1, awaits=4), ofail(1), osoon(2), aw(5)])], role='sub'),
+                                     proc([step([aw(6), soon(awaits=7)])])], mode='idle', early=False)
+    child_nest_acts = scen('child_nest_acts', [proc([step([launch(2), aw(1), nest(3)], 'cont'), step([aw(2)])]),
+                                               proc([step([aw(3), osoon(1, awaits=4), opause(1)])], role='sub'),
+                                               proc([step([osoon(1), aw(5), osoon(2, awaits=6)])], role='sub')],
+                           mode='idle', early=False)
+    return quick + [three, three_child, three_ctl, control3_idle, nest3, nest_deep, nest_early, nest3_acts, child_nest_acts], [control3]
 
 
 # ---- MC module -------------------------------------------------------------------------------------------
